@@ -127,6 +127,17 @@ func cmdCheck(args []string) {
 	}
 	seed := seedFromEnv(20261002)
 	fmt.Printf("VERIF_SEED=%d property=%s tier=%s\n", seed, id, tier)
+	// replay files of earlier runs of this property do not survive a new run: what is in evidence/replay
+	// afterwards was written by this run
+	evRoot := outRoot
+	if v := os.Getenv("VERIF_EVIDENCE_ROOT"); v != "" {
+		evRoot = v
+	}
+	if old, _ := filepath.Glob(filepath.Join(evRoot, "evidence", "replay", id+"-*.json")); len(old) > 0 {
+		for _, f := range old {
+			os.Remove(f)
+		}
+	}
 	switch id {
 	case "C14", "C16", "C18":
 		res, err := gensim.Check(outRoot, id, tier, seed)
